@@ -16,3 +16,4 @@ SPEC = {
         "processing order is parent-first (FIFO channels; a child is queued only after its parent is stored or pending)",
     ],
 }
+
